@@ -24,11 +24,14 @@ var c11ValidLines = []string{
 	"0.0.0.0 hosts.example", "127.0.0.1 one.example two.example # comment", "::1 v6.example", "bare-domain.example", "1.2.3.4 tab.example\tsecond.example",
 	"##.generic-banner", "example.org##.specific", "example.org,~sub.example.org##.negated", "example.org#@#.specific", "example.*##.wild",
 	"||ünïcode.example^", "||пример.рф^", "example.org##.ünï", "||example.org/path?q=日本語",
+	// Blanks of other kinds than space and tab around a rule.
+	"\v\f\u00a0||exotic-blanks.example^\u2003\u0085", "\u3000 0.0.0.0 wide-blank.example \u00a0", "\ufeff||after-bom.example^", "||zero\u200bwidth.example^",
 }
 
 var c11InertLines = []string{
 	"", " ", "\t", "! comment", "# hosts comment", "#", "! ||looks.like.rule^", "[Adblock Plus 2.0]x$$y", "||bad^$nosuchmodifier", "@@", "||wide", "$$",
 	"example.org#$#.css { x }", "example.org#%#script", "###", "! ünïcode comment", "||example.org^$domain=", "a$denyallow=",
+	"\v\f", "\u00a0", "\u2003\u0085 ", "\u00a0! comment after a no-break space", "\v# hosts comment after a vertical tab",
 }
 
 func c11LongLine(c *core.Ctx, n int) string {
